@@ -86,3 +86,10 @@ TEXTS["C18"] = {
     "level_note": "Trusts the ingestion barrier (verif hooks) used inside the callback and the reference aggregator. Only SELECT * [WHERE dims] plans stream rows while scanning; grouped plans buffer the whole scan, so for them only part (b) observes concurrent ingest.",
     "technique": "property-based testing (rapid): schedule placed by the row callback with a differential/reference oracle, plus concurrent runs with a prefix-image invariant",
 }
+
+TEXTS["C17"] = {
+    "level_text": "Exploration with a solo-vs-concurrent differential: generated datasets and sets of 2-8 queries (early-terminating LIMIT scans, field subsets in generated orders, full-grammar queries, disk-only and memstore-inclusive, expired and generous deadlines) issued with generated arrival offsets around a coalesce interval chosen by the case; each query's concurrent outcome must equal its own solo outcome. Finds cross-talk through the shared scan (column mapping, early termination, errors, deadlines, store selection). Does not establish absence; which queries end up in one shared scan is sampled, measured and reported (label histogram).",
+    "design_ref": "DESIGN.md section 4 C17",
+    "level_note": "Trusts that the harness is the only writer between the solo and the concurrent runs (checked by a second solo run). Disk-only queries are generated only when nothing or everything is on disk, because zenodb's flush timer (re-armed to 10x the last flush duration) otherwise moves data on its own between the runs.",
+    "technique": "property-based testing (rapid), differential oracle: concurrent (coalesced) execution vs solo execution of the same query",
+}
